@@ -246,17 +246,388 @@ Proof. unfold A_done. intros. apply incl_appl. auto. Qed.
 Lemma B_mono : forall o l, B_done o -> B_done (o ++ l).
 Proof. unfold B_done. intros. apply incl_appl. auto. Qed.
 
-Ltac vac :=
-  simpl in *; intros; try discriminate; try congruence; try tauto;
-  repeat match goal with
-         | H : _ \/ _ |- _ => destruct H
-         | H : exists _, _ |- _ => destruct H
-         | H : _ /\ _ |- _ => destruct H
-         end; try discriminate; try congruence; try tauto.
+End Proofs.
 
-Lemma inv_init : Inv init.
+(* ------------------------------------------------------------------ *)
+(* 3. the channel is marked resolved only with an empty contract set *)
+
+Section Inv2.
+Variable sc : scen.
+Hypothesis Hwf : wf_scen sc = true.
+
+Record Inv2 (s : st) : Prop := {
+  j_state : d_full (dk s) = false -> d_state (dk s) = m_state (mm s);
+  j_thr : forall k p e, m_res (mm s) k = Some (p, e) ->
+    find_spec sc k <> None /\ d_con (dk s) k = Some p;
+  j_keys : forall k p, d_con (dk s) k = Some p -> find_spec sc k <> None;
+  j_res : forall k p, d_con (dk s) k = Some p -> d_res (dk s) = true;
+  j_ins : forall t, m_pc (mm s) = MInsert t -> d_res (dk s) = true /\ m_state (mm s) = SClosed;
+  j_fullph : fullph (mm s) -> forall k, d_con (dk s) k = None;
+  j_fin : m_fin (mm s) <> None ->
+    m_pc (mm s) = MDone /\ m_state (mm s) = SFull /\
+    (forall n, m_fin (mm s) = Some (S n) -> d_full (dk s) = true);
+  j_full : d_full (dk s) = true ->
+    (forall k, d_con (dk s) k = None) /\ m_pc (mm s) = MDone /\
+    (forall k, m_res (mm s) k = None) /\
+    (d_state (dk s) = SFull \/ d_state (dk s) = SDefault)
+}.
+
+Lemma inv2_init : Inv2 init.
 Proof.
-  constructor; unfold inserted, fullph; solve [vac].
+  constructor; simpl.
+  - reflexivity.
+  - intros; discriminate.
+  - intros; discriminate.
+  - intros; discriminate.
+  - intros; discriminate.
+  - unfold fullph; simpl. intros [H|[t H]]; discriminate.
+  - intros H; exfalso; apply H; reflexivity.
+  - intros; discriminate.
 Qed.
 
-End Proofs.
+Lemma inv2_crash : forall s, Inv2 s -> Inv2 (step sc s ECrash).
+Proof.
+  intros s I. simpl. unfold restart. destruct (d_full (dk s)) eqn:Ef.
+  - destruct (j_full s I Ef) as (Hcon & Hpc & Hres & Hst).
+    constructor; simpl.
+    + rewrite Ef; discriminate.
+    + intros; discriminate.
+    + apply (j_keys s I).
+    + apply (j_res s I).
+    + intros; discriminate.
+    + intros _. exact Hcon.
+    + intros H; exfalso; apply H; reflexivity.
+    + intros _. repeat split; auto.
+  - pose proof (j_state s I Ef) as Hs.
+    constructor; simpl.
+    + reflexivity.
+    + intros; discriminate.
+    + apply (j_keys s I).
+    + apply (j_res s I).
+    + intros; discriminate.
+    + unfold fullph; simpl. intros [H|[t H]]; [|discriminate].
+      apply (j_fullph s I). left. congruence.
+    + intros H; exfalso; apply H; reflexivity.
+    + rewrite Ef; discriminate.
+Qed.
+
+Lemma inv2_anchor : forall s, Inv2 s -> Inv2 (anchor_step s).
+Proof.
+  intros s I. unfold anchor_step. destruct (m_anchor (mm s)); auto.
+  destruct I. constructor; simpl; auto.
+Qed.
+
+Lemma inv2_fin : forall s, Inv2 s -> Inv2 (fin_step s).
+Proof.
+  intros s I. unfold fin_step.
+  destruct (m_fin (mm s)) as [[|[|n]]|] eqn:Em; auto.
+  - assert (Hne : m_fin (mm s) <> None) by congruence.
+    destruct (j_fin s I Hne) as (Hpc & Hst & _).
+    pose proof (j_fullph s I (or_introl Hst)) as Hcon.
+    constructor; simpl.
+    + discriminate.
+    + intros; discriminate.
+    + apply (j_keys s I).
+    + apply (j_res s I).
+    + intros; discriminate.
+    + intros _. exact Hcon.
+    + intros _. repeat split; auto. 
+    + intros _. repeat split; auto.
+      destruct (d_full (dk s)) eqn:Ef.
+      * apply (j_full s I Ef).
+      * left. rewrite (j_state s I Ef). exact Hst.
+  - assert (Hne : m_fin (mm s) <> None) by congruence.
+    destruct (j_fin s I Hne) as (Hpc & Hst & Hfull).
+    pose proof (Hfull 0 Em) as Ef.
+    constructor; simpl.
+    + rewrite Ef; discriminate.
+    + intros; discriminate.
+    + intros; discriminate.
+    + intros; discriminate.
+    + intros; discriminate.
+    + intros _ k. reflexivity.
+    + intros H; exfalso; apply H; reflexivity.
+    + intros _. repeat split; auto.
+Qed.
+
+Lemma upd_same : forall A (f : N -> option A) k v, upd f k v k = v.
+Proof. intros. unfold upd. rewrite N.eqb_refl. reflexivity. Qed.
+Lemma upd_other : forall A (f : N -> option A) k v x, x <> k -> upd f k v x = f x.
+Proof. intros. unfold upd. destruct (N.eqb_spec x k); congruence. Qed.
+
+Lemma inv2_res : forall s k, Inv2 s -> Inv2 (res_step sc s k).
+Proof.
+  intros s k I. unfold res_step.
+  destruct (m_res (mm s) k) as [[p e]|] eqn:Er; auto.
+  destruct (find_spec sc k) as [r|] eqn:Hf; auto.
+  destruct (j_thr s I k p e Er) as (_ & Hc).
+  assert (Hnf : d_full (dk s) = false).
+  { destruct (d_full (dk s)) eqn:Ef; auto.
+    destruct (j_full s I Ef) as (_ & _ & Hres & _). rewrite Hres in Er. discriminate. }
+  assert (Hnp : ~ fullph (mm s)).
+  { intros Hp. pose proof (j_fullph s I Hp k). congruence. }
+  destruct (nth_error (r_stages r) p) as [stg|] eqn:Hn.
+  - destruct e.
+    + constructor; simpl.
+      * intros _. apply (j_state s I Hnf).
+      * intros k' p' e' H'. destruct (N.eqb_spec k' k) as [->|Hne].
+        -- rewrite upd_same in H'. inversion H'; subst. rewrite upd_same. split; congruence.
+        -- rewrite upd_other in H' by auto. rewrite upd_other by auto. apply (j_thr s I k' p' e' H').
+      * intros k' p' H'. destruct (N.eqb_spec k' k) as [->|Hne]; [congruence|].
+        rewrite upd_other in H' by auto. apply (j_keys s I k' p' H').
+      * intros k' p' H'. apply (j_res s I k p Hc).
+      * apply (j_ins s I).
+      * intros Hp. contradiction.
+      * apply (j_fin s I).
+      * rewrite Hnf. discriminate.
+    + constructor; simpl.
+      * apply (j_state s I).
+      * intros k' p' e' H'. destruct (N.eqb_spec k' k) as [->|Hne].
+        -- rewrite upd_same in H'. inversion H'; subst. split; congruence.
+        -- rewrite upd_other in H' by auto. apply (j_thr s I k' p' e' H').
+      * apply (j_keys s I).
+      * apply (j_res s I).
+      * apply (j_ins s I).
+      * apply (j_fullph s I).
+      * apply (j_fin s I).
+      * intros Ef. destruct (j_full s I Ef) as (H1 & H2 & H3 & H4). congruence.
+  - constructor; simpl.
+    + intros _. apply (j_state s I Hnf).
+    + intros k' p' e' H'. destruct (N.eqb_spec k' k) as [->|Hne].
+      * rewrite upd_same in H'. discriminate.
+      * rewrite upd_other in H' by auto. rewrite upd_other by auto. apply (j_thr s I k' p' e' H').
+    + intros k' p' H'. destruct (N.eqb_spec k' k) as [->|Hne].
+      * rewrite upd_same in H'. discriminate.
+      * rewrite upd_other in H' by auto. apply (j_keys s I k' p' H').
+    + intros k' p' H'. apply (j_res s I k p Hc).
+    + apply (j_ins s I).
+    + intros Hp. contradiction.
+    + apply (j_fin s I).
+    + rewrite Hnf. discriminate.
+Qed.
+
+(* a step of the arbitrator that leaves the contracts, its own state and the
+   resolver goroutines alone *)
+Lemma inv2_pc : forall s d' m' o',
+  Inv2 s -> m_pc (mm s) <> MDone ->
+  d_con d' = d_con (dk s) -> d_full d' = d_full (dk s) -> d_state d' = d_state (dk s) ->
+  (d_res (dk s) = true -> d_res d' = true) ->
+  m_res m' = m_res (mm s) -> m_state m' = m_state (mm s) -> m_fin m' = m_fin (mm s) ->
+  (forall t, m_pc m' = MCommit SFull t -> forall k, d_con (dk s) k = None) ->
+  (forall t, m_pc m' = MInsert t -> d_res d' = true /\ m_state m' = SClosed) ->
+  Inv2 (mkSt d' m' o').
+Proof.
+  intros s d' m' o' I Hpc Hcon Hfull Hst Hres Hmres Hmst Hmfin Hcf Hins.
+  assert (Hnf : d_full (dk s) = false).
+  { destruct (d_full (dk s)) eqn:Ef; auto. destruct (j_full s I Ef) as (_ & H & _). contradiction. }
+  assert (Hnfin : m_fin (mm s) = None).
+  { destruct (m_fin (mm s)) eqn:Em; auto.
+    assert (Hne : m_fin (mm s) <> None) by congruence.
+    destruct (j_fin s I Hne) as (H & _). contradiction. }
+  constructor; simpl.
+  - intros _. rewrite Hst, Hmst. apply (j_state s I Hnf).
+  - rewrite Hmres, Hcon. apply (j_thr s I).
+  - rewrite Hcon. apply (j_keys s I).
+  - rewrite Hcon. intros k p H. apply Hres. apply (j_res s I k p H).
+  - exact Hins.
+  - rewrite Hcon. unfold fullph. rewrite Hmst. intros [H|[t H]].
+    + apply (j_fullph s I). left. exact H.
+    + eapply Hcf; eauto.
+  - rewrite Hmfin, Hnfin. intros H; exfalso; apply H; reflexivity.
+  - rewrite Hfull, Hnf. discriminate.
+Qed.
+
+Lemma wf_trivial_con : forall s, Inv2 s -> sc_empty sc = true \/ sc_kind sc = KCoop ->
+  forall k, d_con (dk s) k = None.
+Proof.
+  intros s I H k. destruct (wf_trivial sc Hwf H) as [Hr _].
+  destruct (d_con (dk s) k) eqn:E; auto.
+  exfalso. apply (j_keys s I) in E. apply E. unfold find_spec. rewrite Hr. reflexivity.
+Qed.
+
+Lemma close_next_full : forall s, Inv2 s -> close_next sc (dk s) = SFull ->
+  forall k, d_con (dk s) k = None.
+Proof.
+  intros s I H k. unfold close_next in H.
+  destruct (sc_kind sc) eqn:Ek; try discriminate.
+  - apply wf_trivial_con; auto.
+  - destruct (d_res (dk s)) eqn:Er; [discriminate|].
+    destruct (d_con (dk s) k) eqn:E; auto.
+    apply (j_res s I) in E. congruence.
+Qed.
+
+Lemma no_contracts_none : forall s, Inv2 s -> no_contracts sc (dk s) = true ->
+  forall k, d_con (dk s) k = None.
+Proof.
+  intros s I H k. destruct (d_con (dk s) k) eqn:E; auto. exfalso.
+  pose proof (j_keys s I k n E) as Hk.
+  destruct (find_spec sc k) as [r|] eqn:Hf; [|congruence].
+  apply find_spec_in in Hf. destruct Hf as [Hin Hkey].
+  unfold no_contracts in H. rewrite forallb_forall in H. specialize (H r Hin).
+  rewrite Hkey, E in H. discriminate.
+Qed.
+
+Ltac pcstep I Epc :=
+  eapply inv2_pc;
+  [ exact I | rewrite Epc; discriminate | reflexivity | reflexivity | reflexivity
+  | simpl; auto | reflexivity | reflexivity | reflexivity | simpl | simpl ].
+
+Lemma inv2_main : forall s, Inv2 s -> Inv2 (main_step sc s).
+Proof.
+  intros s I. unfold main_step.
+  destruct (m_pc (mm s)) as [| |i|t r|a t|t|t|t] eqn:Epc.
+  - (* MIdle *)
+    destruct (negb (d_closed (dk s)) && negb (m_closedeliv (mm s)) &&
+              (negb (sc_userfc sc) || d_bcast (dk s))).
+    { pcstep I Epc; intros t H; destruct (sc_kind sc); discriminate. }
+    destruct (sc_userfc sc && negb (m_userdone (mm s)) && negb (d_closed (dk s))).
+    { pcstep I Epc; intros t H; destruct (m_state (mm s)); discriminate. }
+    destruct (m_sigs (mm s)); auto.
+    pcstep I Epc; intros t H; discriminate.
+  - (* MDone *) exact I.
+  - (* MClose *)
+    destruct i as [|[|i]]; pcstep I Epc; intros t H; discriminate.
+  - (* MStep *)
+    destruct (m_state (mm s)) eqn:Ems.
+    + (* Default *)
+      destruct t.
+      * destruct (d_cset (dk s) && sc_cs_acts sc); pcstep I Epc; intros t H; discriminate.
+      * pcstep I Epc; intros t H; discriminate.
+      * pcstep I Epc; intros t H; try discriminate.
+        inversion H. eapply close_next_full; eauto.
+    + (* Broadcast *)
+      destruct t; pcstep I Epc; intros t H; try discriminate.
+      inversion H. eapply close_next_full; eauto.
+    + (* CB *)
+      destruct t; pcstep I Epc; intros t H; try discriminate.
+      inversion H. eapply close_next_full; eauto.
+    + (* Closed *)
+      destruct (negb (d_res (dk s))) eqn:Er.
+      { pcstep I Epc; intros t0 H; discriminate. }
+      destruct (sc_empty sc) eqn:Ee.
+      { pcstep I Epc; intros t0 H; try discriminate. apply wf_trivial_con; auto. }
+      pcstep I Epc; intros t0 H; try discriminate.
+      apply negb_false_iff in Er. split; [exact Er|exact Ems].
+    + (* Waiting *)
+      destruct (no_contracts sc (dk s)) eqn:En.
+      { pcstep I Epc; intros t0 H; try discriminate. apply no_contracts_none; auto. }
+      destruct r.
+      * (* relaunchResolvers *)
+        assert (Hnf : d_full (dk s) = false).
+        { destruct (d_full (dk s)) eqn:Ef; auto.
+          destruct (j_full s I Ef) as (_ & H & _). congruence. }
+        assert (Hnfin : m_fin (mm s) = None).
+        { destruct (m_fin (mm s)) eqn:Em; auto.
+          assert (Hne : m_fin (mm s) <> None) by congruence.
+          destruct (j_fin s I Hne) as (H & _). congruence. }
+        constructor; simpl.
+        -- intros _. rewrite (j_state s I Hnf). exact Ems.
+        -- intros k p e H. unfold relaunch in H.
+           destruct (find_spec sc k) as [r0|] eqn:Hf; [|discriminate].
+           destruct (d_con (dk s) k) as [p0|] eqn:Hc; [|discriminate].
+           destruct (Nat.ltb p0 (length (r_stages r0))); [|discriminate].
+           inversion H; subst. split; congruence.
+        -- apply (j_keys s I).
+        -- apply (j_res s I).
+        -- intros; discriminate.
+        -- unfold fullph; simpl. intros [H|[t0 H]]; discriminate.
+        -- rewrite Hnfin. intros H; exfalso; apply H; reflexivity.
+        -- rewrite Hnf. discriminate.
+      * pcstep I Epc; intros t0 H; discriminate.
+    + (* Full: NotifyChannelResolved *)
+      assert (Hnf : d_full (dk s) = false).
+      { destruct (d_full (dk s)) eqn:Ef; auto.
+        destruct (j_full s I Ef) as (_ & H & _). congruence. }
+      assert (Hnfin : m_fin (mm s) = None).
+      { destruct (m_fin (mm s)) eqn:Em; auto.
+        assert (Hne : m_fin (mm s) <> None) by congruence.
+        destruct (j_fin s I Hne) as (H & _). congruence. }
+      constructor; simpl.
+      * intros _. rewrite (j_state s I Hnf). exact Ems.
+      * apply (j_thr s I).
+      * apply (j_keys s I).
+      * apply (j_res s I).
+      * intros; discriminate.
+      * intros _. apply (j_fullph s I). left. exact Ems.
+      * rewrite Hnfin. intros _. repeat split; auto. intros n H; discriminate.
+      * rewrite Hnf. discriminate.
+  - (* MCommit *)
+    assert (Hnf : d_full (dk s) = false).
+    { destruct (d_full (dk s)) eqn:Ef; auto.
+      destruct (j_full s I Ef) as (_ & H & _). congruence. }
+    assert (Hnfin : m_fin (mm s) = None).
+    { destruct (m_fin (mm s)) eqn:Em; auto.
+      assert (Hne : m_fin (mm s) <> None) by congruence.
+      destruct (j_fin s I Hne) as (H & _). congruence. }
+    constructor; simpl.
+    + reflexivity.
+    + apply (j_thr s I).
+    + apply (j_keys s I).
+    + apply (j_res s I).
+    + intros; discriminate.
+    + unfold fullph; simpl. intros [H|[t0 H]]; [|discriminate].
+      apply (j_fullph s I). right. exists t. rewrite Epc, H. reflexivity.
+    + rewrite Hnfin. intros H; exfalso; apply H; reflexivity.
+    + rewrite Hnf. discriminate.
+  - (* MBcast *) pcstep I Epc; intros t0 H; discriminate.
+  - (* MPublish *) pcstep I Epc; intros t0 H; discriminate.
+  - (* MInsert *)
+    assert (Hnf : d_full (dk s) = false).
+    { destruct (d_full (dk s)) eqn:Ef; auto.
+      destruct (j_full s I Ef) as (_ & H & _). congruence. }
+    assert (Hnfin : m_fin (mm s) = None).
+    { destruct (m_fin (mm s)) eqn:Em; auto.
+      assert (Hne : m_fin (mm s) <> None) by congruence.
+      destruct (j_fin s I Hne) as (H & _). congruence. }
+    destruct (j_ins s I t Epc) as [Hres Hcl].
+    constructor; simpl.
+    + intros _. apply (j_state s I Hnf).
+    + intros k p e H. unfold insert_res in H. unfold insert_con.
+      destruct (find_spec sc k) as [r0|] eqn:Hf.
+      * inversion H; subst. split; congruence.
+      * apply (j_thr s I k p e) in H. destruct H as [H _]. congruence.
+    + intros k p H. unfold insert_con in H.
+      destruct (find_spec sc k) as [r0|] eqn:Hf; [congruence|].
+      apply (j_keys s I k p) in H. congruence.
+    + intros; exact Hres.
+    + intros; discriminate.
+    + unfold fullph; simpl. intros [H|[t0 H]]; [congruence|discriminate].
+    + rewrite Hnfin. intros H; exfalso; apply H; reflexivity.
+    + rewrite Hnf. discriminate.
+Qed.
+
+Lemma inv2_step : forall s e, Inv2 s -> Inv2 (step sc s e).
+Proof.
+  intros s [[|k| |]|] I.
+  - apply inv2_main; auto.
+  - apply inv2_res; auto.
+  - apply inv2_anchor; auto.
+  - apply inv2_fin; auto.
+  - apply inv2_crash; auto.
+Qed.
+
+Lemma inv2_run : forall h, Inv2 (run sc h).
+Proof.
+  intros h. apply (reach_ind sc Inv2).
+  - apply inv2_init.
+  - intros; apply inv2_step; auto.
+  - exists h; reflexivity.
+Qed.
+
+Theorem resolved_only_when_done : forall h,
+  let s := run sc h in
+  (* ChainArbitrator.ResolveContract pending, running or done *)
+  (m_fin (mm s) <> None \/ d_full (dk s) = true \/ d_state (dk s) = SFull) ->
+  (forall k, d_con (dk s) k = None)
+  /\ (m_fin (mm s) <> None -> m_state (mm s) = SFull).
+Proof.
+  intros h s H. pose proof (inv2_run h) as I. fold s in I. split.
+  - destruct (d_full (dk s)) eqn:Ef.
+    + apply (j_full s I Ef).
+    + destruct H as [H|[H|H]]; [|discriminate|].
+      * destruct (j_fin s I H) as (_ & Hst & _). apply (j_fullph s I). left. exact Hst.
+      * apply (j_fullph s I). left. rewrite <- (j_state s I Ef). exact H.
+  - intros Hf. apply (j_fin s I Hf).
+Qed.
+
+End Inv2.
